@@ -28,6 +28,8 @@ def harnesses(tier, seed):
         # more chunks than workers x chunk size: a worker that stops pulling early loses the tail
         hs.append(h("reduce_add", "FMF", "slice", 5, 2, 2))
         hs.append(h("reduce_xor", "MF", "slice", 5, 2, 2))
+        hs.append(h("reduce_xor", "MF", "sched", 4, 2, 1))   # iterator-backed sources under the schedule model
+        hs.append(h("reduce_add", "FMF", "sched", 4, 2, 2))
         hs.append(h("min_by_key", "MF", "slice", 4, 2, 1))
         hs.append(h("max", "FM", "slice", 4, 2, 2))
         hs.append(h("sum", "F", "slice", 4, 2, 1))
